@@ -298,6 +298,9 @@ fn build_context_evaluator(scope: &Scope, context: &Context) -> Result<Evaluator
   scope.pop();
   Ok(Box::new(move |scope: &Scope| {
     let mut evaluated_context = FeelContext::default();
+    // the entries evaluated so far are visible to the entries that follow through a context of their own,
+    // the context of the caller (an enclosing boxed context, for example) is left as it was
+    scope.push(FeelContext::default());
     for (opt_name, evaluator) in &entry_evaluators {
       match opt_name {
         Some(name) => {
@@ -306,10 +309,13 @@ fn build_context_evaluator(scope: &Scope, context: &Context) -> Result<Evaluator
           evaluated_context.set_entry(name, value);
         }
         None => {
-          return evaluator(scope);
+          let result = evaluator(scope);
+          scope.pop();
+          return result;
         }
       }
     }
+    scope.pop();
     Value::Context(evaluated_context)
   }))
 }
